@@ -207,6 +207,24 @@ CLAIMED["C12"] = dict(
          "(DESIGN.md, model limitations); the generator of this check keeps such directives out of link programs.",
 )
 
+CLAIMED["C11"] = dict(
+    text="Theorems about Model.Scope, the name handling the executable whole-program model calls (qualified names '.local<k>.<name>' / "
+         "'.internal<k>.<name>', lookup, define, resolve): the decimal rendering of the counters is injective and the qualified name "
+         "determines (counter, name), so names of different scopes or files never collide (qualified_injective); a local definition "
+         "binds in its own scope and is found first (local_binds_own_scope, own_definition_first); an exported name is found from "
+         "every file exactly when neither the scope nor the file defines it (exported_visible); with no export and no own definition "
+         "the lookup fails whatever other files define (invisible_elsewhere); a second definition of a qualified name is refused and "
+         "leaves the table unchanged (duplicate_reports); a fresh definition is found again (define_then_lookup). Tie: 'scope worlds' "
+         "(1-3 linked files, include trees of depth <= 3, one pool of 8 ordinary and 6 local names reused everywhere, every export "
+         "form in every order, respelled references, one injected fault in 35% of the worlds) where the generator derives every "
+         "binding, the whole image and the expected errors from the rules of the property; the same worlds through the whole-program "
+         "Lean model with diagnostics and positions.",
+    design_ref="DESIGN.md §5 C11",
+    technique="Lean 4 theorems (induction on digit lists and association lists, case analysis) + rule-derived expected image/errors + whole-program model/implementation correspondence",
+    note=NOTE + "A reference inside a '.repeat' block does not see the local labels of the scope around the block (the block opens its own "
+         "scope in the code and in the model); the property is silent about blocks and the check does not judge such programs.",
+)
+
 PENDING_REASON = "check not built yet (build in progress; see DESIGN.md §8 for the order)"
 
 
